@@ -17,6 +17,7 @@ fi
 # 2. harness module in the scratch dir
 mkdir -p "$S/harness"
 cp $V/harness/*.go "$S/harness/"
+mkdir -p "$S/harness/fastg" && cp $V/harness/fastg/* "$S/harness/fastg/"
 cat > "$S/harness/go.mod" <<EOM
 module vh
 
